@@ -387,6 +387,12 @@ func c14GenFresh(r *rng, n int, w *bufio.Writer) {
 		var so, se bytes.Buffer
 		cmd.Stdout, cmd.Stderr = &so, &se
 		runErr := cmd.Start()
+		if os.Getenv("VERIF_C14FRESH_INPROCESS") != "" && runErr == nil {
+			// (testing aid: exercise the in-process path, where a fatal error of the runtime kills the whole harness)
+			_ = cmd.Process.Kill()
+			_ = cmd.Wait()
+			runErr = fmt.Errorf("VERIF_C14FRESH_INPROCESS is set")
+		}
 		if runErr != nil {
 			// no child processes in this environment: run the trial here (names stay new because of the trial counter)
 			cancel()
